@@ -9,7 +9,7 @@ use crate::sched_mc::{load_arena, ARENAS};
 use crate::sched_oracles::{c09, c10, C09Stats};
 use rapid_solve::heuristics::common::ParallelNeighborhood;
 use rapid_time::Duration;
-use rayon::iter::{IndexedParallelIterator, IntoParallelRefIterator, ParallelIterator};
+use rayon::iter::ParallelIterator;
 use serde_json::{json, Value};
 use solver::local_search::neighborhood::swaps::SwapInfo;
 use solver::local_search::neighborhood::RSSchedParallelNeighborhood;
@@ -61,68 +61,92 @@ fn explore(a: &Arena, arena_id: usize, depth: usize, limited: bool, st: &mut Sta
     st.per_depth.push(1);
     for d in 0..=depth {
         // candidates of every state of this level are generated and checked; only up to `depth` levels are expanded
-        let mut next = vec![];
-        for (base, walk) in &frontier {
-            let bk = schedule_key(base.get_schedule());
-            let bc = caches_key(base.get_schedule());
-            let r = std::panic::catch_unwind(std::panic::AssertUnwindSafe(|| nb.neighbors_of(base).collect::<Vec<ScheduleWithInfo>>()));
-            let cands = match r {
-                Ok(c) => c,
-                Err(_) => {
-                    let (site, msg) = crate::pool::take_last_panic_any_thread().unwrap_or(("?".into(), "?".into()));
-                    let short: String = msg.chars().take(80).collect();
-                    found.push(Found { arena: arena_id, walk: walk.clone(), clause: format!("panic:{}:{}", site_without_line(&site), short), detail: format!("generating the candidates panicked at {}: {}", site, short) });
-                    continue;
-                }
-            };
-            if schedule_key(base.get_schedule()) != bk || caches_key(base.get_schedule()) != bc {
-                found.push(Found { arena: arena_id, walk: walk.clone(), clause: "base-modified".into(), detail: "the base schedule changed while its candidates were generated".into() });
-            }
-            st.candidates += cands.len();
-            for c in &cands {
-                *st.per_kind.entry(kind_of(c.get_last_swap_info())).or_insert(0) += 1;
-            }
-            // check every candidate (in parallel)
-            let viols: Vec<(usize, String, String)> = cands
-                .par_iter()
-                .enumerate()
-                .flat_map_iter(|(i, c)| {
-                    let mut cs = C09Stats { differential_checked: 0, differential_skipped: 0 };
-                    let mut v: Vec<(usize, String, String)> = vec![];
-                    let r = std::panic::catch_unwind(std::panic::AssertUnwindSafe(|| {
-                        let mut out = c10(a, c.get_schedule());
-                        out.extend(c09(a, 1000 + arena_id, c.get_schedule(), &mut cs));
-                        out
-                    }));
-                    match r {
-                        Ok(list) => {
-                            for (cl, de) in list {
-                                v.push((i, cl, de));
+        let nthreads = 8usize;
+        let chunk = ((frontier.len() + nthreads - 1) / nthreads).max(1);
+        // per state: (candidates with their keys, kinds, violations)
+        type PerState = (Vec<(String, ScheduleWithInfo)>, Vec<&'static str>, Vec<Found>);
+        let results: Vec<Vec<PerState>> = std::thread::scope(|sc| {
+            let hs: Vec<_> = frontier
+                .chunks(chunk)
+                .map(|items| {
+                    let nb = &nb;
+                    sc.spawn(move || {
+                        crate::pool::install_panic_recorder_thread();
+                        let mut out: Vec<PerState> = vec![];
+                        for (base, walk) in items {
+                            let mut fnd: Vec<Found> = vec![];
+                            let bk = schedule_key(base.get_schedule());
+                            let bc = caches_key(base.get_schedule());
+                            let r = std::panic::catch_unwind(std::panic::AssertUnwindSafe(|| nb.neighbors_of(base).collect::<Vec<ScheduleWithInfo>>()));
+                            let cands = match r {
+                                Ok(c) => c,
+                                Err(_) => {
+                                    let (site, msg) = crate::pool::take_last_panic_any_thread().unwrap_or(("?".into(), "?".into()));
+                                    let short: String = msg.chars().take(80).collect();
+                                    fnd.push(Found { arena: arena_id, walk: walk.clone(), clause: format!("panic:{}:{}", site_without_line(&site), short), detail: format!("generating the candidates panicked at {}: {}", site, short) });
+                                    out.push((vec![], vec![], fnd));
+                                    continue;
+                                }
+                            };
+                            if schedule_key(base.get_schedule()) != bk || caches_key(base.get_schedule()) != bc {
+                                fnd.push(Found { arena: arena_id, walk: walk.clone(), clause: "base-modified".into(), detail: "the base schedule changed while its candidates were generated".into() });
                             }
+                            let kinds: Vec<&'static str> = cands.iter().map(|c| kind_of(c.get_last_swap_info())).collect();
+                            let mut keyed = vec![];
+                            for c in cands {
+                                let mut cs = C09Stats { differential_checked: 0, differential_skipped: 0 };
+                                let r = std::panic::catch_unwind(std::panic::AssertUnwindSafe(|| {
+                                    let mut v = c10(a, c.get_schedule());
+                                    v.extend(c09(a, 1000 + arena_id, c.get_schedule(), &mut cs));
+                                    v
+                                }));
+                                let list = match r {
+                                    Ok(l) => l,
+                                    Err(_) => {
+                                        let _ = crate::pool::take_last_panic_any_thread();
+                                        vec![("oracle-panic".to_string(), "evaluating the candidate panicked (a getter of the candidate schedule panics)".to_string())]
+                                    }
+                                };
+                                for (cl, de) in list {
+                                    if fnd.len() < 50 {
+                                        let mut w = walk.clone();
+                                        w.push(c.get_print_text().to_string());
+                                        fnd.push(Found { arena: arena_id, walk: w, clause: cl, detail: de });
+                                    }
+                                }
+                                keyed.push((schedule_key(c.get_schedule()), c));
+                            }
+                            out.push((keyed, kinds, fnd));
                         }
-                        Err(_) => {
-                            let _ = crate::pool::take_last_panic_any_thread();
-                            v.push((i, "oracle-panic".into(), "evaluating the candidate panicked (a getter of the candidate schedule panics)".into()));
-                        }
-                    }
-                    v
+                        out
+                    })
                 })
                 .collect();
-            for (i, cl, de) in viols {
-                if found.len() < 500 {
-                    let mut w = walk.clone();
-                    w.push(cands[i].get_print_text().to_string());
-                    found.push(Found { arena: arena_id, walk: w, clause: cl, detail: de });
+            hs.into_iter().map(|h| h.join().expect("explorer thread")).collect()
+        });
+        let mut next = vec![];
+        let mut idx = 0usize;
+        for chunk_res in results {
+            for (keyed, kinds, fnd) in chunk_res {
+                let walk = frontier[idx].1.clone();
+                idx += 1;
+                st.candidates += keyed.len();
+                for k in kinds {
+                    *st.per_kind.entry(k).or_insert(0) += 1;
                 }
-            }
-            for c in cands {
-                let k = schedule_key(c.get_schedule());
-                if seen.insert(k) {
-                    st.distinct_candidate_schedules += 1;
-                    if d < depth {
-                        let mut w = walk.clone();
-                        w.push(c.get_print_text().to_string());
-                        next.push((c, w));
+                for f in fnd {
+                    if found.len() < 500 {
+                        found.push(f);
+                    }
+                }
+                for (k, c) in keyed {
+                    if seen.insert(k) {
+                        st.distinct_candidate_schedules += 1;
+                        if d < depth {
+                            let mut w = walk.clone();
+                            w.push(c.get_print_text().to_string());
+                            next.push((c, w));
+                        }
                     }
                 }
             }
